@@ -60,19 +60,21 @@ def build_one(zname, cfg, extra_flags=(), tag=''):
         return exe
     src = os.path.join(d, f'{zname}_{variant}.cpp')
     if not os.path.exists(src):
-        with open(src + '.tmp', 'w') as fh:
+        import threading
+        tmpn = f'{src}.{os.getpid()}.{threading.get_ident()}.tmp'
+        with open(tmpn, 'w') as fh:
             fh.write(emit.emit(desc.make_variant(z, variant)))
-        os.replace(src + '.tmp', src)
+        os.replace(tmpn, src)
     std = 'c++' + z.cxx
     cmd = ['g++', f'-std={std}', '-O0', '-fno-access-control', '-w', f'-DVF_CFG={CFGS[cfg]}',
-           f'-I{REPO}/include', f'-I{VERIF}/harness', *extra_flags, src, '-o', exe + '.tmp']
+           f'-I{REPO}/include', f'-I{VERIF}/harness', *extra_flags, src, '-o', exe + f'.{os.getpid()}.tmp']
     r = subprocess.run(cmd, capture_output=True, text=True)
     if r.returncode != 0:
         with open(exe + '.log', 'w') as fh:
             fh.write(' '.join(cmd) + '\n' + r.stdout + r.stderr)
         raise RuntimeError(f'build failed for {zname}/{cfg}: see {exe}.log\n' + '\n'.join(
             l for l in r.stderr.split('\n') if 'error' in l)[:3000])
-    os.replace(exe + '.tmp', exe)
+    os.replace(exe + f'.{os.getpid()}.tmp', exe)
     return exe
 
 
